@@ -2,6 +2,7 @@ package c07
 
 import (
 	"errors"
+	"io"
 	"os"
 	"sync"
 
@@ -217,6 +218,11 @@ func (f *FaultFile) Snapshot() ([]byte, error) {
 // Restore rewrites the file to a snapshot (harness use only).
 func (f *FaultFile) Restore(b []byte) error {
 	if err := f.File.Truncate(0); err != nil {
+		return err
+	}
+	// Irrelevant for the O_APPEND descriptor the stores open today, but keeps
+	// the repair correct should the open flags ever change.
+	if _, err := f.File.Seek(0, io.SeekStart); err != nil {
 		return err
 	}
 	if len(b) > 0 {
